@@ -96,6 +96,7 @@ func checkC08(w *World, r *Report) {
 	r.Explanation += " Round 11: (R08.17) text in front of a keyword is consumed; (R08.18) one evaluator interprets BinaryNode operators; short-circuit helpers are summarised."
 	r.Explanation += " Round 12: (R08.19) operator-node constructors keep operand roles."
 	r.Explanation += " Round 13: (R08.20) string literals are decoded alike at every site."
+	r.Explanation += " Round 14: (R08.21) operator-node builders return the node they build; (R08.22) the precedence table is asked about whole operators."
 	r.RuleText = "obligation = one operator of one table / one evaluation site / one NAME shortcut; non-trivial = agreement and path obligations"
 	r.Trusted = []string{"the specification table is transcribed from the property statement into the checker (specClasses)"}
 
